@@ -26,7 +26,7 @@ QUICK_TARGETS = {
     "C02": ["tests/core", "tests/utils", "xgi/core", "xgi/utils"],
     "C03": ["tests/core", "tests/utils", "xgi/core", "xgi/utils"],
     "C04": ["tests/core", "tests/utils", "tests/generators", "xgi/core"],
-    "C08": ["tests/algorithms", "tests/stats", "tests/linalg", "tests/utils", "tests/convert"],
+    "C08": ["tests/stats", "tests/core/test_views.py", "tests/core/test_globalviews.py", "tests/utils", "tests/convert"],
 }
 FULL_TARGETS = ["tests", "xgi"]
 EVAL_KEY = {"C01": ["inv:Hypergraph"], "C02": ["inv:DiHypergraph"], "C03": ["inv:SimplicialComplex"], "C04": ["fresh"], "C08": ["readonly"]}
